@@ -29,7 +29,7 @@ def run(chk):
         # systematic part: every schedule with one forced preemption (all positions, both default thread
         # orders) of the two smallest interesting configurations
         corpus = corpus + scen_tee.enum_cases(2, 2, 3, 'clean', 1) + scen_tee.enum_cases(2, 2, 1, 'exc', 1)
-        stats(core.e1_flow(chk, 'scen_tee', 'tee', {'C10'}, gen, 900, keyfn=keyfn, corpus=corpus, escalate_n=1500))
+        stats(core.e1_flow(chk, 'scen_tee', 'tee', {'C10'}, gen, 600, keyfn=keyfn, corpus=corpus, escalate_n=1500))
     else:
         for src in ('clean', 'exc', 'stopreq'):
             for n in (0, 1, 3, 5):
